@@ -15,7 +15,7 @@ from ..paths import enumerate_paths
 from ..consteval import fold_const, fold_expr, Regex, EnumMember
 from .c03_flow import OFlow, SanCall, strip_proj, via_of
 from .c03_inline import (inline_helpers, inline_test_locals, comprehension_as_loop, unroll_const_loops, specialise, ifexp_assign_to_if,
-                         search_loop_to_any, index_loop_to_direct, desugar_list_comp_assigns)
+                         search_loop_to_any, index_loop_to_direct, desugar_list_comp_assigns, desugar_map, partial_bindings, expand_partials)
 
 NINJA = 'mesonbuild/backend/ninjabackend.py'
 BACKENDS = 'mesonbuild/backend/backends.py'
@@ -76,7 +76,8 @@ def _nfunc(mod: Module, qn: str) -> ast.AST:
             no_inline.add(_quoter_role(mod)[1])
         except Undecided:
             pass
-    f = unroll_const_loops(desugar_list_comp_assigns(inline_helpers(mod, mod.func(qn), cls, no_inline), only_tables=True, inplace=True), True)      # inline_helpers works on a copy; the rest edits that copy
+    f0 = expand_partials(desugar_map(mod.func(qn)), partial_bindings(mod), True)        # map(f, xs) -> generator; partial aliases -> the call they stand for
+    f = unroll_const_loops(desugar_list_comp_assigns(inline_helpers(mod, f0, cls, no_inline), only_tables=True, inplace=True), True)      # inline_helpers works on a copy; the rest edits that copy
     _NF_CACHE[key] = inline_test_locals(search_loop_to_any(index_loop_to_direct(ifexp_assign_to_if(f, True), True), True), True)
     return _NF_CACHE[key]
 
@@ -1108,6 +1109,23 @@ def r3b(ctx: RuleCtx) -> None:
     # the tested name is the variable name extracted from the `$name` / `${name}` reference
     vdefs = fl.defs.get(var_expr or '', [])
     pats = []
+
+    def const_pattern(c: ast.AST) -> T.Optional[str]:
+        # PATTERN_CONSTANT.match(x) with a module-level re.compile(...) constant
+        if isinstance(c, ast.Call) and isinstance(c.func, ast.Attribute) and c.func.attr in ('match', 'fullmatch') and isinstance(c.func.value, ast.Name) \
+                and c.func.value.id not in fl.defs and mod.has_assign(c.func.value.id):
+            try:
+                r = fold_const(ctx.repo, mod, c.func.value.id)
+            except Exception:
+                return None
+            return r.pattern if isinstance(r, Regex) else None
+        return None
+    for d in vdefs:
+        for nm in [d] + [d2 for x in ast.walk(d) if isinstance(x, ast.Name) for d2 in fl.defs.get(x.id, []) if isinstance(d2, ast.AST)]:
+            for c in ast.walk(nm):
+                pc = const_pattern(c)
+                if pc is not None:
+                    pats.append(pc)
     for d in vdefs:
         for c in ast.walk(d):
             if isinstance(c, ast.Call) and call_name(c) in ('re.match', 're.fullmatch') and isinstance(c.args[0], ast.Constant):
@@ -1483,6 +1501,16 @@ def r4c(ctx: RuleCtx) -> None:
         src = _uncopy(loop.iter)
         if isinstance(src, ast.Name) and src.id not in fl.params and len(fl.defs.get(src.id, [])) == 1:
             src = _uncopy(fl.defs[src.id][0])
+        if isinstance(src, (ast.ListComp, ast.GeneratorExp)) and len(src.generators) == 1 and not src.generators[0].ifs and isinstance(src.generators[0].target, ast.Name):
+            # an order-preserving element-wise view of the arguments; a string element must map to itself
+            v_ = src.generators[0].target.id
+            e_ = src.elt
+            keeps_str = norm(e_) == v_ or (isinstance(e_, ast.IfExp) and norm(e_.test).startswith(f'isinstance({v_}, ') and 'str' not in norm(e_.test)
+                                           and norm(e_.orelse) == v_) or (isinstance(e_, ast.IfExp) and norm(e_.test).startswith(f'not isinstance({v_}, ')
+                                                                          and 'str' not in norm(e_.test) and norm(e_.body) == v_)
+            if not keeps_str:
+                raise Undecided(f'{qn}: {lst} is filled from the element-wise view {short(src)}, whose effect on string arguments is not understood')
+            src = _uncopy(src.generators[0].iter)
         if (attr_chain(src) or '').endswith('.cmd_args'):
             ctx.ok(f'{qn}: {lst} is filled by iterating {norm(loop.iter)} in order')
         elif isinstance(src, ast.Call) and call_name(src) in ('sorted', 'reversed', 'set', 'frozenset') and src.args and (attr_chain(_uncopy(src.args[0])) or '').endswith('.cmd_args'):
@@ -1505,7 +1533,17 @@ def r4c(ctx: RuleCtx) -> None:
             for ev in after:
                 got_ = _appended(ev.node, lst) if ev.kind == 'stmt' else None
                 if got_ is not None:
-                    items += got_
+                    res_: T.List[ast.AST] = []
+                    for x_ in got_:
+                        # a whole local list added at once: its reaching definition on this path, when that is a display
+                        if isinstance(x_, ast.Starred) and isinstance(x_.value, ast.Name):
+                            prev = [e2.node.value for e2 in p.events[:p.events.index(ev)] if e2.kind == 'stmt' and isinstance(e2.node, ast.Assign)
+                                    and len(e2.node.targets) == 1 and norm(e2.node.targets[0]) == x_.value.id]
+                            if prev and isinstance(prev[-1], (ast.List, ast.Tuple)) and not any(isinstance(y, ast.Starred) for y in prev[-1].elts):
+                                res_ += list(prev[-1].elts)
+                                continue
+                        res_.append(x_)
+                    items += res_
                     where = ev.node
             nrow += 1
             ok = not rew and len(items) == 1 and norm(items[0]) == it
